@@ -4,7 +4,7 @@
 // the exact min/max over the ACCEPTED points; the raw values read back are exactly the accepted ones, in order.
 //@target src/pc_writer.rs
 //@check accept_reject_bounds_roundtrip serves=C14,C10,C01 fn=PointCloudWriter::{add_point,write_buffer_to_disk,finalize} note="BOUNDED: prototype X,Y,Z (f64) + Intensity Integer 0..=100 + ColorRed Integer -5..=1000; 3 deterministic point streams of 0, 7 and 3000 points (several packets) with every 3rd/5th point invalid in a LATER attribute (out of range above / below, wrong variant); bounds, record count and raw read-back compared"
-//@check roundtrip_any_section_alignment serves=C01,C02,C10 fn=PointCloudWriter::{new,write_buffer_to_disk,finalize} note="BOUNDED: a blob of every 4-aligned payload length 0..2100 in front of the point cloud (moves section header, packet header, stream-size table and stream data across page boundaries), 40 points, raw read-back and CRC validation compared"
+//@check roundtrip_any_section_alignment serves=C01,C02,C10,C16 fn=PointCloudWriter::{new,write_buffer_to_disk,finalize} note="BOUNDED: a blob of every 4-aligned payload length 0..2100 in front of the point cloud (moves section header, packet header, stream-size table and stream data across page boundaries), 40 points, raw read-back and CRC validation compared"
 //@check wide_integers_and_all_bounds serves=C14,C12,C01,C10 fn=PointCloudWriter::add_point,BitPack::unpack_ints,BitPack::unpack_scaled_ints,integer_bits,serialize_integer note="BOUNDED: spherical coordinates (f64) + row / column / return index records with ranges 0..=i64::MAX, i64::MIN..=i64::MAX, -10..=i64::MAX + a ScaledInteger intensity over -2^62..=2^62; 9 points with values at both ends of every range, 2^53+1 and neighbours; spherical and index bounds exact over the points; raw read-back exact"
 //@check point_counts_around_packet_capacity serves=C01,C02 fn=PointCloudWriter::{add_point,write_buffer_to_disk,finalize,get_max_packet_points} note="BOUNDED: prototype 3 x f32 + 11-bit integer (packets hold ~4861 points) with every point count 4850..=4870 and 9715..=9730, and 3 x 19-bit scaled integers with 9120..=9130: counts that are exact multiples of the packet capacity, one less, one more (last partial flush with an empty point buffer); raw read-back exact"
 //@module
